@@ -42,6 +42,8 @@ pub enum ParamForm {
     ConfigKept,
     /// <T, U> with U skipped
     TwoSecondSkipped,
+    /// <S: BitStore, O: BitOrder>: the parameters are the store and the order of a bit sequence
+    BitsSO,
 }
 
 #[derive(Clone, Debug, PartialEq, Eq, Hash)]
@@ -70,6 +72,18 @@ fn self_ty(params: ParamForm) -> Ty {
 }
 
 pub fn generic_field_alphabet(params: ParamForm, include_cf3: bool) -> Vec<Field> {
+    if params == ParamForm::BitsSO {
+        let bv = Ty::BitVecG(b(Ty::Param(0)), b(Ty::Param(1)));
+        return vec![
+            Field::new(bv.clone()),
+            Field::new(Ty::Vec(b(bv.clone()))),
+            Field::new(Ty::Option(b(bv))),
+            Field::new(U8),
+            Field::new(Ty::BitVec(Prim::U8, false)),
+            Field::new(Ty::Phantom(b(Ty::Param(0)))),
+            Field::new(Ty::Phantom(b(Ty::Param(1)))),
+        ];
+    }
     let mut v: Vec<Field> = generic_type_alphabet(params, include_cf3).into_iter().map(Field::new).collect();
     if !matches!(params, ParamForm::ConfigSkipped | ParamForm::ConfigKept) {
         // `#[codec(compact)] f: T` and an explicit `Compact<T>`, also nested
@@ -133,6 +147,12 @@ pub fn generic_arg_alphabet(params: ParamForm) -> Vec<Vec<Ty>> {
         Ty::Named(G_H, vec![U8]),
     ];
     match params {
+        ParamForm::BitsSO => vec![
+            vec![Ty::Prim(Prim::U8), Ty::Order(false)],
+            vec![Ty::Prim(Prim::U16), Ty::Order(true)],
+            vec![Ty::Prim(Prim::U32), Ty::Order(false)],
+            vec![Ty::Prim(Prim::U8), Ty::Order(true)],
+        ],
         ParamForm::One => base.into_iter().map(|x| vec![x]).collect(),
         ParamForm::ConfigSkipped | ParamForm::ConfigKept => [G_CFGA, G_CFGB, G_CFGC]
             .iter()
@@ -169,6 +189,7 @@ impl GenState {
         let params: Vec<Param> = match self.params {
             ParamForm::One => vec![("T", false)],
             ParamForm::Two => vec![("T", false), ("U", false)],
+            ParamForm::BitsSO => vec![("S", false), ("O", false)],
             ParamForm::ConfigSkipped => vec![("T", true)],
             ParamForm::ConfigKept => vec![("T", false)],
             ParamForm::TwoSecondSkipped => vec![("T", false), ("U", true)],
@@ -273,9 +294,14 @@ fn strict_subterms(ty: &Ty, out: &mut Vec<Ty>) {
         | Ty::RangeInclusive(t)
         | Ty::Compact(t)
         | Ty::Phantom(t) => push(t, out),
-        Ty::Result(a, c) | Ty::BTreeMap(a, c) => {
+        Ty::Result(a, c) | Ty::BTreeMap(a, c) | Ty::BitVecG(a, c) => {
             push(a, out);
             push(c, out)
+        }
+        // a concrete bit sequence has its store and its order as components
+        Ty::BitVec(p, m) => {
+            out.push(Ty::Prim(*p));
+            out.push(Ty::Order(*m));
         }
         _ => {}
     }
@@ -512,6 +538,21 @@ impl<'a> Expect<'a> {
                 )
             }
             Ty::Phantom(_) => "::core::marker::PhantomData<?>".into(),
+            Ty::BitVecG(st, o) => format!(
+                "{}<{},{}>",
+                crate::settings::squash(self.settings.bits_path.as_deref().unwrap_or("?bits")),
+                n(st),
+                n(o)
+            ),
+            Ty::Order(msb) => {
+                let order_src = if *msb { "bitvec::order::Msb0" } else { "bitvec::order::Lsb0" };
+                self.settings
+                    .substitutes
+                    .iter()
+                    .find(|(f, _)| f == order_src)
+                    .map(|(_, t)| crate::settings::squash(t))
+                    .unwrap_or_else(|| format!("{}::{}", self.settings.root, order_src))
+            }
         }
     }
 
@@ -673,12 +714,13 @@ pub struct DFamily {
 }
 
 pub const ALL_BODY_FORMS: [BodyForm; 3] = [BodyForm::Named, BodyForm::Unnamed, BodyForm::Enum];
-pub const ALL_PARAM_FORMS: [ParamForm; 5] = [
+pub const ALL_PARAM_FORMS: [ParamForm; 6] = [
     ParamForm::One,
     ParamForm::Two,
     ParamForm::ConfigSkipped,
     ParamForm::ConfigKept,
     ParamForm::TwoSecondSkipped,
+    ParamForm::BitsSO,
 ];
 pub const ALL_MEMBER_FORMS: [MemberForm; 3] = [MemberForm::NamedStruct, MemberForm::TupleStruct, MemberForm::Enum];
 
@@ -884,7 +926,7 @@ pub fn tys_equiv(prog: &Program, a: &Ty, b_: &Ty, assumed: &mut HashSet<(usize, 
         | (Range(x), Range(y))
         | (RangeInclusive(x), RangeInclusive(y))
         | (Compact(x), Compact(y)) => tys_equiv(prog, x, y, assumed),
-        (Result(x1, x2), Result(y1, y2)) | (BTreeMap(x1, x2), BTreeMap(y1, y2)) => {
+        (Result(x1, x2), Result(y1, y2)) | (BTreeMap(x1, x2), BTreeMap(y1, y2)) | (BitVecG(x1, x2), BitVecG(y1, y2)) => {
             tys_equiv(prog, x1, y1, assumed) && tys_equiv(prog, x2, y2, assumed)
         }
         (Phantom(_), Phantom(_)) => true,
